@@ -9,13 +9,14 @@ import (
 	"verif/internal/ev"
 )
 
-const numScenarios = 15
+const numScenarios = 16
 
 var scenarioNames = [numScenarios]string{
 	"io-across-close", "downgrade-vs-lock-clone", "reregistration", "expiry-with-locks",
 	"unlinked-open", "locks-held-on-free", "io-across-reregistration-and-expiry", "io-across-downgrade",
 	"unconfirmed-open-owner", "two-versions-one-file", "hostile-battery", "random",
 	"reclaim-matrix", "shared-lock-owner", "open-in-flight",
+	"silent-clock-advance",
 }
 
 // afterStep runs the quiescent-point oracles.
@@ -572,9 +573,169 @@ func (h *hist) scenario(n int) {
 				h.w.aborted.Store(true)
 			}
 		}
+	case 15: // a request is held in flight while the clock passes the lease, with no other traffic
+		h.silentClockAdvance(c, other, name)
 	}
 }
 
 func describeCounts(m map[string]int) string {
 	return fmt.Sprint(m)
+}
+
+// expireAllExcept applies to the model what the server does once the
+// clock is more than a lease past the last contact of everything but
+// client keep's confirmed record: all other clients go, as do keep's
+// unconfirmed records and (4.0) its unused open-owners.
+func (h *hist) expireAllExcept(keep *client) {
+	for _, x := range h.clients {
+		if x == keep {
+			for _, r := range append([]*reg(nil), x.regs...) {
+				if r != x.cur {
+					x.removeReg(r)
+				}
+			}
+			if x.ver == 0 {
+				for _, o := range x.sortedOwners() {
+					if o.known && (len(o.opens) == 0 || !o.confirmed) {
+						h.dropOwner(o)
+					}
+				}
+			}
+			continue
+		}
+		x.dropState()
+		x.regs = nil
+		x.cur = nil
+	}
+}
+
+// releaseHoldsOfAllExcept ends the entitlements that expireAllExcept
+// is about to remove; it must run before the request that makes the
+// server notice the expiry.
+func (h *hist) releaseHoldsOfAllExcept(keep *client) {
+	for _, x := range h.clients {
+		if x != keep {
+			x.releaseAllHolds()
+		} else if x.ver == 0 {
+			for _, o := range x.owners {
+				if !o.confirmed {
+					for _, os := range o.opens {
+						os.setHeld(0)
+					}
+				}
+			}
+		}
+	}
+}
+
+// silentClockAdvance: client c has a request in flight (held at a gate
+// inside the file system) while the clock advances by about a lease or
+// more and nobody else talks to the server. The client was in contact
+// the whole time, so its lease runs from the completion of that
+// request: it must still be alive, with all of its state, when it sends
+// its next request less than a lease later.
+func (h *hist) silentClockAdvance(c, other *client, name string) {
+	w := h.w
+	step := func() bool {
+		h.afterStep("scenario-step")
+		return !w.aborted.Load()
+	}
+	for len(h.inflight) > 0 {
+		h.releaseIO(h.inflight[0])
+	}
+	if !c.usable() || c.inflight != 0 || !step() {
+		return
+	}
+	os := h.ensureOpen(c, 0, name, accBoth)
+	if os == nil || !step() {
+		return
+	}
+	var os2 *openState
+	if other != nil && other.usable() {
+		os2 = h.ensureOpen(other, 0, name, accRead)
+	}
+	// Park a request of c.
+	var io *inflightIO
+	var po *parkedOpen
+	if h.chance(65) {
+		io = h.startGatedIO(c, h.pick(2), os.sid, os.leaf, "open-state-id")
+		if io == nil {
+			return
+		}
+	} else {
+		other2 := "n0"
+		po = h.startGatedOpen(c, openParams{ownerKey: c.ownerKey(0), name: other2, fh: fhRoot, access: uint32(1 + h.pick(3)), how: howUnchecked, claim: claimNull, variant: "valid"})
+		if po == nil {
+			return
+		}
+	}
+	if !step() {
+		return
+	}
+	// The clock moves; nobody talks to the server.
+	first := []time.Duration{leaseTime - 5*time.Second, leaseTime, leaseTime + 5*time.Second, 3 * leaseTime}[h.pick(4)]
+	second := []time.Duration{30 * time.Second, 60 * time.Second, leaseTime - time.Second}[h.pick(3)]
+	w.clk.Advance(first, nil)
+	w.logf("clock +%s (no request)", first)
+	pastLease := first > leaseTime
+	if pastLease {
+		// Completing the held request makes the server look at
+		// the clock: everybody else has been silent for too long.
+		h.releaseHoldsOfAllExcept(c)
+	}
+	if io != nil {
+		h.releaseIO(io)
+	} else {
+		h.releaseGatedOpen(po)
+	}
+	if w.aborted.Load() {
+		return
+	}
+	h.poke()
+	if pastLease {
+		h.expireAllExcept(c)
+		h.sit("request-in-flight-longer-than-the-lease")
+	} else {
+		h.sit("request-in-flight-for-up-to-the-lease")
+	}
+	if !step() {
+		return
+	}
+	// Less than a lease after the held request completed: c is alive.
+	w.clk.Advance(second, nil)
+	w.logf("clock +%s (no request)", second)
+	if !pastLease {
+		h.releaseHoldsOfAllExcept(c)
+	}
+	if !c.usable() || os.closed {
+		return
+	}
+	h.io(c, ioRead, os.sid, fhLeaf(os.leaf), "open-state-id-after-long-request")
+	if w.aborted.Load() {
+		return
+	}
+	h.poke()
+	if !pastLease {
+		// first+second is more than a lease: everybody else, whose
+		// last contact predates the first advance, is gone now.
+		h.expireAllExcept(c)
+	}
+	h.sit("client-alive-after-request-held-across-clock-advance")
+	if !step() {
+		return
+	}
+	h.io(c, ioWrite, os.sid, fhLeaf(os.leaf), "open-state-id-after-long-request")
+	if !step() {
+		return
+	}
+	// Another client comes (back) and finds a working server.
+	if other != nil && !other.vanished {
+		if os2 != nil && !os2.closed {
+			return
+		}
+		h.establish(other)
+		if other.usable() {
+			h.ensureOpen(other, 1, name, accRead)
+		}
+	}
 }
